@@ -17,7 +17,7 @@ def cases_for(prop):
         "C05": ("BinaryRBM.prob_", "PurificationRBM.prob_"),
         "C10": ("NLL[", "KL[", "fidelity["),
         "C06": ("compute_batch_gradients[",),
-        "C08": ("SigmaZ",),
+        "C08": ("SigmaZ", "SigmaX", "SigmaY"),
         "C13": ("statistics_from_samples",),
         "C09": ("SWAP.apply[",),
     }.get(prop, ())
